@@ -10,20 +10,20 @@ CONFIG = {
                  "specification model on queries parsed by the real spargebra",
     "level_text": "Proof (unbounded: all datasets, patterns, bindings) about the executable model of sparql/src: the recursive BGP matcher "
                   "(pre-filter, all-bound shortcut, populate_bindings on variables / blank placeholders / quoted-triple patterns) returns exactly "
-                  "the algebra's pattern instance mappings with their multiplicities and never panics; UNION / FILTER / BIND / GRAPH <iri> / "
+                  "the algebra's pattern instance mappings with their multiplicities and never panics; UNION / FILTER / BIND / GRAPH <iri> / GRAPH ?g (pre-binding = join, for BGP/UNION/FILTER bodies over a dataset with a named graph) / "
                   "projection / DISTINCT / OFFSET-LIMIT / ASK equal SPARQL 1.1 section 18; every constructor outside the fragment, CONSTRUCT, "
                   "DESCRIBE and dataset clauses yield NotImplemented per the dispatch table regenerated from exec.rs / wrapper.rs on every run. "
                   "The model is tied to the real engine differentially (LightDataset and FastDataset, queries parsed by the real spargebra, "
-                  "0 disagreements required). GRAPH ?g, sub-selects and the value-level expression operators (=, <, &&, ||, STR, LANG, DATATYPE) "
-                  "are covered by the differential against the executable specification only; five deviations there are known findings with "
-                  "kernel-checked witnesses.",
+                  "0 disagreements required). Sub-selects, BIND or nested GRAPH ?y inside GRAPH ?g, and the value-level expression operators "
+                  "(=, <, &&, ||, STR, LANG, DATATYPE) are covered by the differential against the executable specification only; five deviations "
+                  "there are known findings with kernel-checked witnesses.",
     "level_note": "Trusted: the transcription of SPARQL 1.1 sections 17/18 (SparqlSpec.lean); the hand-written implementation model "
                   "(Sparql.lean) up to the differential; spargebra; the in-memory store as a quad set (C01). eval_correct is _partial: it "
-                  "excludes GRAPH ?g and sub-selects and assumes ExprOK (proved for BOUND/sameTerm/isIRI/isBlank/isLiteral and negations); "
+                  "excludes sub-selects, restricts what may stand inside GRAPH ?g, and assumes ExprOK (proved for BOUND/sameTerm/isIRI/isBlank/isLiteral and negations); "
                   "the unrestricted statement is refuted (evalCorrectFull_refuted). Row order is not modelled (OFFSET/LIMIT: size + containment).",
     "tables": ["sparql_dispatch"],
     "lean_targets": ["SophiaProofs.Props.C13", "SophiaProofs.Audit.C13"],
-    "theorems": ['bgp_correct', 'bgp_multiset', 'single_graph_nodup', 'body_correct', 'eval_correct_partial', 'ask_correct', 'slice_sound', 'dispatch_total', 'unsupported_err', 'fragment_refused', 'dispatch_model', 'query_dispatch', 'spec_refuses', 'no_panic', 'exprOK_termlevel', 'evalCorrectFull_refuted', 'dev_empty_named', 'dev_graph_prebind', 'dev_proj_leak', 'dev_or_strict', 'dev_ebv_illtyped'],
+    "theorems": ['bgp_correct', 'bgp_multiset', 'single_graph_nodup', 'body_correct', 'graph_var_correct', 'eval_correct_partial', 'ask_correct', 'slice_sound', 'dispatch_total', 'unsupported_err', 'fragment_refused', 'dispatch_model', 'query_dispatch', 'spec_refuses', 'no_panic', 'exprOK_termlevel', 'evalD_none', 'evalCorrectFull_refuted', 'dev_empty_named', 'dev_graph_prebind', 'dev_proj_leak', 'dev_or_strict', 'dev_ebv_illtyped'],
     "native_ok": [],
     "trivial_re": r"^skip|errclass=notimpl|rows=0/|^errclass=none ask=0",
     "rule": "per run: ~100 fixed SPARQL texts (every unsupported operator: OPTIONAL, MINUS, VALUES, aggregates/GROUP BY/HAVING, paths, "
